@@ -10,7 +10,7 @@ import gtree as T           # noqa: E402
 import pylite_io as P       # noqa: E402
 
 PROP = "C03"
-DEPS = ["Spec/Reader.v", "Proofs/ReaderThm.v", "Spec/Ebnf.v", "Gen/Grammar.v"]
+DEPS = ["Spec/Reader.v", "Proofs/ReaderThm.v", "Spec/Ebnf.v", "Gen/Grammar.v", "Model/Walker.v", "Model/Edge.v", "Proofs/WalkerThm.v"]
 MODS = ["2Ac", "6S", "3Me", "NAc", "A", "4P", "6d", "2,3-Anhydro-", "N", "5Gc", "9Ac", "2F", "3oxoMyr", "-ol", "f", "p", "6Pam"]
 
 
@@ -139,6 +139,24 @@ def run(tier):
                 report.fail({"site": "parser", "kind": "foreign-text-accepted"}, {"input": s, "nodes": o["nodes"]})
                 continue
             stats["foreign_accepted_derivable"] += 1
+        # the walker model on the parse tree ANTLR built: ids, names and edge insertion order, exactly
+        if o.get("ptree"):
+            wm = drv.call("walkmodel", o["ptree"])
+            if wm == "RAISE" or "\t" not in wm:
+                report.fail({"site": "correspondence", "kind": "walker-model-raises"},
+                            {"no_failing_input": True, "input": s, "what_no_longer_checks": "Model/Walker.parse_begin vs TreeWalker.parse", "model": wm})
+            else:
+                mn, me = wm.split("\t")
+                m_nodes = [P.unhx(x) for x in mn.split("\x1f")] if mn else []
+                m_edges = [[int(e.split(",")[0]), int(e.split(",")[1]), P.unhx(e.split(",")[2])] for e in me.split("\x1f")] if me else []
+                i_nodes = [n[1] for n in sorted(o["nodes"])]
+                # networkx lists edges grouped by source node (per node in insertion order): same grouping for the model
+                m_edges = sorted(m_edges, key=lambda e: e[0])
+                if m_nodes != i_nodes or m_edges != o["edges"]:
+                    report.fail({"site": "correspondence", "kind": "walker-model-differs"},
+                                {"no_failing_input": True, "input": s, "what_no_longer_checks": "Model/Walker.parse_begin vs TreeWalker.parse (node ids, names, edge order)",
+                                 "model": [m_nodes, m_edges], "library": [i_nodes, o["edges"]]})
+                stats["walker_model_ok"] = stats.get("walker_model_ok", 0) + 1
         try:
             impl, is_tree = canon_impl(o)
         except ValueError:
